@@ -75,6 +75,21 @@ pub fn count(id: &'static str) {
   *reg().counts.lock().entry(id).or_insert(0) += 1;
 }
 
+static GAUGES: std::sync::OnceLock<Mutex<BTreeMap<&'static str, i64>>> = std::sync::OnceLock::new();
+
+/// Signed gauge: `gauge_add("id", +1 / -1)`; read with `gauges()`.
+#[inline]
+pub fn gauge_add(id: &'static str, delta: i64) {
+  *GAUGES.get_or_init(|| Mutex::new(BTreeMap::new())).lock().entry(id).or_insert(0) += delta;
+}
+
+pub fn gauges() -> BTreeMap<String, i64> {
+  match GAUGES.get() {
+    Some(g) => g.lock().iter().map(|(k, v)| (k.to_string(), *v)).collect(),
+    None => BTreeMap::new(),
+  }
+}
+
 pub fn counters() -> BTreeMap<String, u64> {
   reg().counts.lock().iter().map(|(k, v)| (k.to_string(), *v)).collect()
 }
